@@ -104,7 +104,13 @@ func c19p(c *Ctx, pfx string) {
 			})
 		}
 		rets := engine.RawReturnsOf(fn)
-		ok = ok && len(rets) == 1 && strings.HasPrefix(c.P.D(engine.ReturnValues(rets[0])[0]), "recv.StoreLogs(")
+		for _, rt := range rets {
+			d := c.P.D(engine.ReturnValues(rt)[0])
+			if !strings.HasPrefix(d, "recv.StoreLogs(") && !(d == "nil" && len(rets) > 1) {
+				ok = false
+			}
+		}
+		ok = ok && len(rets) >= 1 && len(c.P.CallsIn(fn, engine.Is("(*LogCache).StoreLogs"))) == 1
 		c.Check(pfx+"R2", "StoreLog:delegates", c.P.Pos(fn.Pos()), "StoreLog(l) = StoreLogs([]*Log{l})", ok, pick(ok, "delegates", "does something else"), 1)
 	}
 
@@ -116,11 +122,13 @@ func c19p(c *Ctx, pfx string) {
 				return ok && strings.HasPrefix(c.P.D(v), "make([]*Log, len(recv.cache))")
 			}),
 			engine.Event("backend", c.P.IsCallTo(engine.Is("iface:LogStore.DeleteRange"))),
+			predErr("backendErr", "recv.store.DeleteRange(p1, p2)"),
 		}})
 		for i, ret := range engine.RawReturnsOf(fn) {
 			d := c.P.D(engine.ReturnValues(ret)[0])
-			c.RequireAt(r, pfx+"R3", fmt.Sprintf("DeleteRange:return#%d", i+1), ret, "the whole cache was replaced by a fresh slice of the same length before returning, and the backend's answer is returned unchanged", func(v engine.View) bool {
-				return v.Seen("reset") && v.Seen("backend") && d == "recv.store.DeleteRange(p1, p2)"
+			c.RequireAt(r, pfx+"R3", fmt.Sprintf("DeleteRange:return#%d", i+1), ret, "the whole cache was replaced by a fresh slice of the same length before returning, and the backend's answer is returned unchanged (directly, or as 'err' / nil after testing it)", func(v engine.View) bool {
+				same := d == "recv.store.DeleteRange(p1, p2)" || (d == "nil" && v.F("backendErr"))
+				return v.Seen("reset") && v.Seen("backend") && same
 			})
 		}
 		for _, s := range c.P.CallsIn(fn, engine.Is("iface:LogStore.DeleteRange")) {
